@@ -3,9 +3,9 @@
 # applies one seeded patch at a time to the snapshot of /repo, runs the named harnesses, undoes it
 for spec in "$@"; do
   id="${spec%%:*}"; hs=$(echo "${spec#*:}" | tr ',' ' ')
-  (cd "$VP_RUN_REPO" && git checkout -q -- . && (git apply "/verif/seeded/$id/patch.diff" || git apply -3 "/verif/seeded/$id/patch.diff")) || { echo "MUTANT $id apply-failed"; continue; }
+  (cd "$VP_RUN_REPO" && git reset -q --hard && (git apply "/verif/seeded/$id/patch.diff" || git apply -3 "/verif/seeded/$id/patch.diff")) || { echo "MUTANT $id apply-failed"; continue; }
   AVRA_REPO="$VP_RUN_REPO" python3 runner/avra_verif.py harness $hs > "mutant_$id.log" 2>&1
   echo "MUTANT $id exit=$?"
   grep "VIOLATION\|INCONCL\|  [a-z0-9_]* *\(pass\|fail\|oom\|timeout\|error\|unwind\|vacuous\)" "mutant_$id.log" | tail -8
-  (cd "$VP_RUN_REPO" && git checkout -q -- .)
+  (cd "$VP_RUN_REPO" && git reset -q --hard)
 done
